@@ -4,7 +4,7 @@ import OpcuaModel.Gen.RefTypes
 /-
   Driver for C33 (the HasSubtype forest is the generated one).
     b <dir> <refType> <sub 0|1> <mask> <ref>*   → ok <type:fwd:target>*   (implementation order)
-        ref = type:fwd(0|1):target:storedClass:nil(0|1)
+        ref = type:fwd(0|1):target:storedClass:nil(0|1):targetClass:targetExists(0|1)
     srt <t1> <t2> <sub 0|1>                     → yes | no
     subs <t>                                    → the list getSubRefs returns (`-` when empty)
 -/
@@ -12,9 +12,10 @@ open Opcua Opcua.Browse
 
 def parseRef (s : String) : Option Ref :=
   match s.splitOn ":" with
-  | [t, f, tg, c, n] => do
+  | [t, f, tg, c, n, tc, te] => do
     pure { refType := (← t.toNat?), isForward := (← f.toNat?) == 1, target := (← tg.toNat?),
-           storedClass := (← c.toNat?), targetClass := 0, nilField := (← n.toNat?) == 1 }
+           storedClass := (← c.toNat?), targetClass := (← tc.toNat?), targetExists := (← te.toNat?) == 1,
+           nilField := (← n.toNat?) == 1 }
   | _ => none
 
 def showRef (r : Ref) : String := s!"{r.refType}:{if r.isForward then 1 else 0}:{r.target}"
